@@ -597,8 +597,8 @@ func (k *checker) keyFor(repo *git.Repository, dir string, rq request, d differe
 func run(c *vf.Ctx) {
 	g := gitx.New(c.Scratch)
 	k := &checker{c: c, g: g, kc: map[string]string{}}
-	nRepos := c.N(12, 60)
-	perRepo := c.N(16, 20)
+	nRepos := c.N(10, 60)
+	perRepo := c.N(12, 20)
 	var repMu sync.Mutex
 	reported := map[string]int{}
 	vf.Parallel(nRepos, 6, func(i int) {
@@ -674,8 +674,8 @@ func run(c *vf.Ctx) {
 		}
 	})
 	c.Extra("git_invocations", gitx.Calls.Load())
-	c.Floor("requests compared", c.Counter("requests_compared"), c.N(150, 1000))
-	c.Floor("entries compared", c.Counter("entries_compared"), c.N(800, 5000))
+	c.Floor("requests compared", c.Counter("requests_compared"), c.N(100, 1000))
+	c.Floor("entries compared", c.Counter("entries_compared"), c.N(500, 5000))
 	c.Floor("formats", c.SeenCount("formats"), 4)
 	c.Floor("tree-ish kinds", c.SeenCount("treeish_kinds"), 8)
 	c.Floor("filter kinds", c.SeenCount("filter_kinds"), 6)
